@@ -33,8 +33,12 @@ def main(argv):
             import subprocess
             var = [v for v in getattr(mod, 'ENV_VARIANTS', []) if v['name'] == envname]
             if var:
-                cmd, env = core.variant_cmd(var[0], prop, ['--replay', replay])
-                p = subprocess.run(cmd, env=env, preexec_fn=core._variant_preexec(var[0]), cwd=core.VERIF)
+                cmd, env = core.variant_cmd(var[0], prop, ['--replay', os.path.abspath(replay)])
+                cwd = core.variant_cwd(var[0])
+                try:
+                    p = subprocess.run(cmd, env=env, preexec_fn=core._variant_preexec(var[0]), cwd=cwd)
+                finally:
+                    core.variant_cwd_done(var[0], cwd)
                 return p.returncode
         vs = mod.replay(core.dec(body['case']), body.get('seed', core.SEED))
         if os.environ.get('VERIF_VARIANT'):
